@@ -315,3 +315,10 @@ func AtVisibleOp(n int, fn func()) {
 }
 
 func VisibleOps() int { return 0 }
+
+// SchedExplore(false) makes the engine follow its canonical schedule (no scheduling
+// decisions) until SchedExplore(true); natively a no-op.
+func SchedExplore(on bool) {}
+
+// Debug prints a line in the engine when GOSYM_DEBUG is set (no-op natively).
+func Debug(msg string) {}
